@@ -42,6 +42,10 @@ type Hooks struct {
 	// ShouldYield decides whether the (single) running goroutine parks at an
 	// optional scheduling point.
 	ShouldYield func(site string) bool
+	// Stall, when set, is asked after a goroutine has yielded at an optional
+	// scheduling point: a positive duration deschedules the goroutine for
+	// that much simulated time (a thread that lost its CPU).
+	Stall func(site string) time.Duration
 	// Notify is called (by the parking goroutine) after it has been added to
 	// the parked set; it must not block.
 	Notify func()
@@ -280,6 +284,15 @@ func Pre(site string) uint64 {
 	} else if y := hooks.ShouldYield; y != nil && y(site) {
 		NYields.Add(1)
 		Park(site)
+		if st := hooks.Stall; st != nil {
+			if d := st(site); d > 0 {
+				tok := epoch.Load()
+				time.Sleep(d)
+				if epoch.Load() != tok {
+					Park(site)
+				}
+			}
+		}
 	}
 	return epoch.Load()
 }
